@@ -103,7 +103,7 @@ func (h *hRun) compile() error {
 }
 
 // hostGlobals: the globals of a run in an impl-only history (host callbacks).
-func hostGlobals(vm *ugo.VM) ugo.Map {
+func histHostGlobals(vm *ugo.VM) ugo.Map {
 	return ugo.Map{
 		"pan": &ugo.Function{Name: "pan", Value: func(args ...ugo.Object) (ugo.Object, error) { panic("host panic") }},
 		"idx": &ugo.Function{Name: "idx", Value: func(args ...ugo.Object) (ugo.Object, error) {
@@ -131,7 +131,7 @@ func runHist(vm *ugo.VM, h *hRun) string {
 	vm.SetRecover(h.Rec)
 	var globals ugo.Object = ugo.Map{}
 	if h.Host {
-		globals = hostGlobals(vm)
+		globals = histHostGlobals(vm)
 	}
 	done := make(chan struct{})
 	var ret ugo.Object
